@@ -106,8 +106,36 @@ def do_verify(name, tier, checks):
         shutil.rmtree(scratch, ignore_errors=True)
 
 
+def do_robust(name, seeds):
+    """the seed's own check at several VERIF_SEED values against ONE scratch copy; meta['seeds_caught'] = {seed: bool}"""
+    d = os.path.join(VERIF, 'seeded', name)
+    pid = name.split('-')[0]
+    scratch = tempfile.mkdtemp(prefix='glom_seed_', dir='/tmp')
+    repo = os.path.join(scratch, 'repo')
+    meta_path = os.path.join(d, 'meta.json')
+    meta = json.load(open(meta_path))
+    try:
+        shutil.copytree('/repo', repo, ignore=shutil.ignore_patterns('.git', '__pycache__', '*.pyc', '.tox'))
+        rc, out = sh(['patch', '-p1', '--no-backup-if-mismatch', '-i', os.path.join(d, 'patch.diff')], cwd=repo)
+        if rc:
+            print('%s PATCH DOES NOT APPLY' % name)
+            return 2
+        res = meta.setdefault('seeds_caught', {})
+        for sd in seeds:
+            env = dict(os.environ, VERIF_REPO=repo, VERIF_SEED=str(sd))
+            rc, out = sh([os.path.join(VERIF, 'check'), pid, 'quick'], env=env)
+            res[str(sd)] = (rc == 1 and 'VIOLATION property=' in out)
+        print(name, ' '.join('%s:%s' % (k, 'caught' if v else 'MISSED') for k, v in sorted(res.items())))
+        json.dump(meta, open(meta_path, 'w'), indent=1, sort_keys=True)
+        return 0 if all(res.values()) else 1
+    finally:
+        shutil.rmtree(scratch, ignore_errors=True)
+
+
 if __name__ == '__main__':
     a = sys.argv[1:]
+    if a[0] == 'robust':
+        sys.exit(do_robust(a[1], [int(x) for x in (a[2] if len(a) > 2 else '2,3,4').split(',')]))
     if a[0] == 'import':
         do_import(a[1], a[2])
     elif a[0] == 'import2':       # round 2: /tmp/wt2/<ID>/SEED/<A|B> -> seeded/<ID>-<C|D>
